@@ -1,12 +1,12 @@
 -------------------------- MODULE LifecycleHistories --------------------------
-(* All call histories of length <= MaxLen over {data A, B} x {with y, without y} x   *)
+(* All call histories of length <= MaxLen over {data A, B, C} x {with y, without y} x   *)
 (* {small, large request} (C09).  Every history is printed as JSON and replayed on    *)
 (* each estimator class of the catalogue; after each fit the learned state must be    *)
 (* that of a fresh estimator fitted with the same arguments.                          *)
 EXTENDS Integers, Sequences, TLC, Json
 CONSTANTS MaxLen
 VARIABLES h
-Steps == {"A", "B"} \X BOOLEAN \X {"small", "large"}
+Steps == {"A", "B", "C"} \X BOOLEAN \X {"small", "large"}        \* A and C have the same shape, B another one
 Init == h = <<>>
 Fit(s) == Len(h) < MaxLen /\ h' = Append(h, s)
 Next == \E s \in Steps : Fit(s)
